@@ -13,7 +13,7 @@ BASELINE = ("cd /repo && /venv/bin/python -m pytest -ra -q -p no:cacheprovider -
 
 # id -> (category, technique, level text, level note, design ref, n/a reason while the check is not built)
 TABLE: dict[str, dict[str, str]] = {
-    "C01": dict(cat="other", tech="form-table extraction (opcode/parameter roles per syntax form) + abstract interpretation of the op-list builders against specified flow graphs + def-use rules on the post-passes; whole compiler (visitors, handlers, post-passes) interpreted from its syntax trees on grammar parse trees: 169 syntactic forms and routine headers vs. the language form table, exhaustive bounded family of schematic programs vs. specified flow graphs by bisimulation",
+    "C01": dict(cat="other", tech="form-table extraction (opcode/parameter roles per syntax form) + abstract interpretation of the op-list builders against specified flow graphs + def-use rules on the post-passes; whole compiler (visitors, handlers, post-passes) interpreted from its syntax trees on grammar parse trees: 169 syntactic forms and routine headers vs. the language form table, exhaustive bounded family of schematic programs vs. specified flow graphs by bisimulation; macro projects vs. their hand-inlined programs",
                 text="Decides for all programs: opcode and parameter order of every condition/header/case/assignment form, the label/jump skeleton every block construct emits for every body-shape class, and the op-removal discipline of the post-passes. Does not decide whole-program behaviour (user label graphs, interplay of passes). Interpreter-based rules decide the enumerated shapes for every outcome of every test, not all programs (DESIGN.md 9.2).",
                 note="Oracle tables under esv/spec written from docs/language_spec.rst and the SSB machine model; CPython ast; the grammar reader esv/engine/g4.py.", ref="§4 C01"),
     "C02": dict(cat="other", tech="grammar-parsed print templates pushed through the compiler's form model (writer/reader agreement) + dispatch exhaustiveness + edge-attribute conventions + entry preservation; round trip compile -> decompile -> compile with every stage interpreted (parser runtime, graph library and file system modelled) over general, nested and flat program families, a fixed pseudo-random sample of deeper mixed programs, hand-made routine sets and two exhaustive families of small routines (every routine of up to 3/4 ops over plain, End, Jump, Branch, Call, Return; one Switch with up to three cases and up to three ops behind them), flow graphs compared by bisimulation; both orders of every iterated set of graph elements",
@@ -52,7 +52,7 @@ TABLE: dict[str, dict[str, str]] = {
     "C13": dict(cat="other", tech="data-dependence rule on the join search (traversal liveness) + marker producer/consumer agreement; flat programs (singles, ordered pairs; triples in the thorough tier) taken through compile -> decompile with every stage interpreted: ExplorerScript without jump, each operation once; typestate of jump roots across passes; stale edge ids; memo discipline",
                 text="Decides necessary conditions only: the common-next-vertex search advances along the graph's adjacency, and every end marker a pass attaches has a writer-side consumer that stops on the same id. Completeness of the structuring heuristics is not decided. R6 decides the property for the enumerated flat shapes (832 quick / 8 608 thorough), not for all flat programs.",
                 note="CPython ast.", ref="§4 C13"),
-    "C14": dict(cat="other", tech="sibling/writer-reader field agreement on serialize/deserialize/__init__, equality coverage, shape rule on rewrite_offsets, no truth test of an int | None value; serialize/deserialize/rewrite_offsets interpreted on maps of an interpreted macro project under nine offset mappings",
+    "C14": dict(cat="other", tech="sibling/writer-reader field agreement on serialize/deserialize/__init__, equality coverage, shape rule on rewrite_offsets, no truth test of an int | None value; serialize/deserialize/rewrite_offsets interpreted on maps of interpreted macro projects (read back from text and as the compiler hands them out) under twelve offset mappings, with re-reads after rewrites",
                 text="Decides for all maps: field order and JSON keys agree between writer and reader, int keys and tuples are restored, SourceMap.__eq__ compares value-comparable entries, rewrite_offsets rebuilds both tables through the mapping and moves return addresses forward to the next surviving op.",
                 note="CPython ast; json module semantics (arrays come back as lists, keys as strings).", ref="§4 C14"),
     "C15": dict(cat="other", tech="tag-table agreement compile CLI / decompile CLI / docs, offset-renumbering rule, coroutine-id rule, docs example types vs. reader operations, exit paths; build_routines_json/read_routines interpreted on compiled programs; the __main__ blocks of both command-line modules interpreted on a virtual file system (argument vector, working directory, exit status, standard output/error, files written)",
@@ -64,7 +64,7 @@ TABLE: dict[str, dict[str, str]] = {
     "C17": dict(cat="proof", tech="regex nullability, first-set totality and exponential-ambiguity (product automaton) analysis over the Pygments token table; the table run by a model of the RegexLexer loop on sample texts, callback actions and a driver override of the class interpreted",
                 text="Proof over the token table: every rule regex is non-nullable (termination), every action is a plain token type (losslessness), and in every enterable state the rules that are certain to match from their first character cover the alphabet reachable there in accepted sources (no Error token, also not by an explicit Error action); no pattern has a loop that is ambiguous before a part that can fail (catastrophic backtracking); R6 lexes 36 sample texts with the table itself.",
                 note="Trusted: pygments RegexLexer.get_tokens_unprocessed main loop, re._parser, equivalence of words() with an alternation.", ref="§4 C17"),
-    "C18": dict(cat="other", tech="visitor traversal rule against grammar reachability, span-expression shape rule, shared argument parser (sibling agreement); the listing visitor interpreted on sample sources against the grammar's own parse tree; printed marks compiled back",
+    "C18": dict(cat="other", tech="visitor traversal rule against grammar reachability, span-expression shape rule, shared argument parser (sibling agreement); the listing visitor interpreted on sample sources against the grammar's own parse tree; printed marks compiled back; a mark printed, edited in place and printed again",
                 text="Decides that the position-mark visitor cuts no subtree that can contain a Position literal, aggregates in visit order, builds spans from start.line-1/start.column/stop.line-1/stop.column of the literal's own context, and shares handler classes and the argument parser with the compiler.",
                 note="Grammar reader; CPython ast.", ref="§4 C18"),
 }
